@@ -83,5 +83,5 @@ static std::string handle(const std::string &p) {
 
 int main(int argc, char **argv) {
   ola::InitLogging(ola::OLA_LOG_NONE, ola::OLA_LOG_STDERR);
-  return vh::run(argc, argv, handle, 10);
+  return vh::run(argc, argv, handle, 40);  // ASan reports can take >10 s on a loaded box
 }
